@@ -48,5 +48,19 @@ man = {
     "not_applicable": na,
     "notes": "See DESIGN.md. Fix commits in /repo and recorded findings are listed in known_findings.json.",
 }
+findings = []
+for f in sorted((V / "findings").glob("*.json")):
+    findings += json.loads(f.read_text())
+lines = []
+for f in findings:
+    if f["status"] == "fixed":
+        lines.append(f"fixed: property={f['property']} {f.get('commit','?')} {f['what']}")
+    else:
+        lines.append(f"known: property={f['property']} key={f['key']} {f['what']}")
+(V / "known_findings.json").write_text(json.dumps({
+    "description": "Genuine defects of abTEM found by the checks. status=known: recorded, not repaired (the check prints KNOWN-FINDING and "
+                   "exits 0 while only the listed key fails); status=fixed: repaired by the named fix: commit in /repo (suppresses nothing). "
+                   "Assembled from findings/*.json by tools/mkmanifest.py; never written at check time.",
+    "lines": lines, "findings": findings}, indent=1, ensure_ascii=False) + "\n")
 (V / "MANIFEST.json").write_text(json.dumps(man, indent=1, ensure_ascii=False) + "\n")
 print(f"MANIFEST.json: {len(checks)} checks, {len(na)} not_applicable")
